@@ -45,6 +45,16 @@ claimed = {
   "note": NOTE_COMMON + "Model/Describe.lean + Model/IR.lean (derived Ord, debug_print sort keys); printed names of generic instances are not modelled (those programs: round trip only).",
   "technique": "Lean 4 proof (invariant over the describe traversal, decide +kernel text witnesses) + verbatim text correspondence + real two-generation round trip",
   "design": "§5 C15", "engines": ["lean-model", "beffh", "js-host"]},
+ "C02": {
+  "text": "Lean 4: a model of schema() of every class in both printing modes (tied VERBATIM, key order included, to the real emitted JSON on every run) and a JSON Schema 2020-12 evaluator for the emitted keyword set. Proved: for every JSON document the schemas of string/number/boolean, null/undefined/void, any/unknown and never accept exactly what the validator accepts (typeof_exact, nullish_exact, any_exact, never_exact via valid_type_only for all fuels); Date/bigint/Map/Set/typed arrays throw in both modes in every context (nonjson_leaves_throw) and the exception propagates from nested positions; kernel-checked regression witnesses for the repaired D13/D19 and a witness for D48. Composite constructors are decided on the REAL schemas by python jsonschema (meta-schema well-formedness, soundness incl. strict keys, completeness on null-free exact members, $ref resolution, throw-iff-non-JSON). Seven genuine defects were repaired (D13, D19, D46, D47, D52, D16a + prior), five deviations are recorded with decidable hypotheses (D48–D51, D9).",
+  "note": NOTE_COMMON + "Model/{Schema,Hash,JsonSchema}.lean; python jsonschema 4.x with the harness formats is the judge in the search; flat soundness is only claimed for non-recursive types (as the property states).",
+  "technique": "Lean 4 proof (leaf exactness against a Lean JSON-Schema evaluator, throw lemmas, decide +kernel witnesses) + verbatim schema correspondence + python-jsonschema differential oracle",
+  "design": "§5 C02", "engines": ["lean-model", "js-host"]},
+ "C16": {
+  "text": "Lean 4: the context state machine (collected definitions, in-progress marks, overrides, refPathTemplate, synthetic discriminated-variant names incl. the 32-bit hash) is part of the schema model and is compared VERBATIM with the real SchemaPrintingContext after EVERY call of random call histories (returned schema + exportDefinitions()). Proved: storeDefinition never loses a collected definition, defines the stored name and clears exactly its own mark (store_keeps / store_defines / store_clears_mark); kernel-checked witnesses: the repaired D16a (a throwing print no longer leaves a mark behind) and the 32-bit synthetic-name collision D16b. Search on the real contexts: every definition equals the fresh-context definition, nothing missing, repeated prints agree, every $ref resolves in the final export, for all histories with repetition and four template/container settings.",
+  "note": NOTE_COMMON + "export_order_independent over arbitrary histories is not proved as one theorem (open obligation); D16c (dangling $ref after a throwing call inside a cycle) is a recorded finding.",
+  "technique": "Lean 4 proof (context-update lemmas, decide +kernel witnesses) + per-call verbatim state correspondence + order-independence oracle on the real contexts",
+  "design": "§5 C16", "engines": ["lean-model", "js-host"]},
 }
 pending_reason = "not yet built in this round (planned: DESIGN.md §5/§8); no claim is made until its model, theorems and correspondence check exist"
 m = {"version": 1, "setup_cmd": "bin/setup",
